@@ -56,9 +56,8 @@ Qed.
 
 Lemma encode_scope c nfec buf : Forall (Pok_c c) (encode c nfec buf).
 Proof.
-  unfold encode. destruct (consecutive _); [|constructor].
-  apply Forall_forall. intros x Hx. apply in_flat_map in Hx as (j & _ & Hx).
-  destruct (covers_legacy _ _ _ _); [contradiction|]. destruct Hx as [<-|[]].
+  unfold encode. destruct (_ && _); [|constructor].
+  apply Forall_forall. intros x Hx. apply repeat_spec in Hx. subst.
   split; [left; reflexivity|]. intros _. split; [unfold p_len, fec_pkt; cbn; lia|reflexivity].
 Qed.
 
